@@ -468,6 +468,7 @@ func CheckVerbatim(run *core.Run, prog *load.Program, na *NameAlloc) {
 // write Var.Name, and nothing but the rendering helpers may read it: a name
 // copied or completed at build time goes stale or escapes the conflict checks.
 func CheckVarNameOwners(run *core.Run, prog *load.Program) {
+	checkElementAddresses(run, prog)
 	rp := prog.ByPath[load.PkgRegistry]
 	tn, _ := rp.Types.Scope().Lookup("Var").(*types.TypeName)
 	if tn == nil {
@@ -553,4 +554,75 @@ func CheckVarNameOwners(run *core.Run, prog *load.Program) {
 	run.Count("var_name_writes", nWrites)
 	run.Floor("G-VARNAME/writers", 1)
 	run.Floor("G-VARNAME/readers", 2)
+}
+
+// checkElementAddresses (G-SCOPE/element-address): a pointer to an element of a slice of struct values
+// that lives in a struct field or package-level variable and is appended to anywhere in moq goes stale
+// when the slice grows beyond its capacity: renames applied later through the slice (or through the
+// pointer) are then lost on one side. Elements that are pointers themselves are fine.
+func checkElementAddresses(run *core.Run, prog *load.Program) {
+	grows := map[types.Object]bool{}
+	holder := func(info *types.Info, e ast.Expr) types.Object {
+		switch x := ast.Unparen(e).(type) {
+		case *ast.SelectorExpr:
+			if v, ok := info.ObjectOf(x.Sel).(*types.Var); ok && v.IsField() {
+				return v
+			}
+		case *ast.Ident:
+			if v, ok := info.ObjectOf(x).(*types.Var); ok && v.Pkg() != nil && v.Parent() == v.Pkg().Scope() {
+				return v
+			}
+		}
+		return nil
+	}
+	funcsOf(prog, func(pkgPath string, info *types.Info, fd *ast.FuncDecl, fn *types.Func) {
+		ast.Inspect(fd.Body, func(n ast.Node) bool {
+			as, ok := n.(*ast.AssignStmt)
+			if !ok || len(as.Lhs) != len(as.Rhs) {
+				return true
+			}
+			for i, r := range as.Rhs {
+				call, ok := ast.Unparen(r).(*ast.CallExpr)
+				if !ok {
+					continue
+				}
+				if id, ok := ast.Unparen(call.Fun).(*ast.Ident); ok {
+					if bi, ok := info.Uses[id].(*types.Builtin); ok && bi.Name() == "append" {
+						if h := holder(info, as.Lhs[i]); h != nil {
+							grows[h] = true
+						}
+					}
+				}
+			}
+			return true
+		})
+	})
+	n := 0
+	funcsOf(prog, func(pkgPath string, info *types.Info, fd *ast.FuncDecl, fn *types.Func) {
+		ast.Inspect(fd.Body, func(x ast.Node) bool {
+			ue, ok := x.(*ast.UnaryExpr)
+			if !ok || ue.Op != token.AND {
+				return true
+			}
+			ix, ok := ast.Unparen(ue.X).(*ast.IndexExpr)
+			if !ok {
+				return true
+			}
+			sl, ok := info.TypeOf(ix.X).Underlying().(*types.Slice)
+			if !ok {
+				return true
+			}
+			if _, isStruct := sl.Elem().Underlying().(*types.Struct); !isStruct {
+				return true
+			}
+			h := holder(info, ix.X)
+			if h == nil || !grows[h] {
+				return true
+			}
+			n++
+			run.Check("G-SCOPE/element-address", load.FuncName(fn)+":"+h.Name(), prog.Pos(ue.Pos()), false, fmt.Sprintf("%s takes the address of an element of %s, a slice of struct values that moq appends to: once the slice grows beyond its capacity the pointer refers to a dead copy, and a rename made through one of them (a parameter colliding with an import met later, a numbered name) never reaches the other", load.FuncName(fn), types.ExprString(ix.X)))
+			return true
+		})
+	})
+	run.Count("element_addresses_of_growing_slices", n)
 }
